@@ -24,7 +24,10 @@ EXPLANATION = (
     "width keeps it within [min_width, max_width]. R12g shown lines are first + [skipped] + last, the skipped count is total "
     "minus shown records, `seq[-n:]` is guarded by the truthiness of n, every record enters the line list once, in order. R12h "
     "no consumer mutates in place a list that fit_to_width / resize_chunks_list may have returned unchanged unless it is fresh "
-    "or provably not the argument. Assumes at least one column and non-negative widths. Cell content (which characters) is not decided."
+    "or provably not the argument. R12i (content of a truncated cell): resize_chunks_list, interpreted by the relational text "
+    "interpreter of C08 with the chunk list as the text, returns for every m >= 0 the first min(m, n) characters of the value in "
+    "order and colour followed by max(m - n, 0) blanks; fit_to_width appends exactly the dots chunk to it. Assumes at least one "
+    "column and non-negative widths. Content of cells that are not truncated (padding around the unchanged list) is decided as widths only."
 )
 
 
@@ -37,7 +40,8 @@ def run(cx):
                  ("R12e", "rows are SEP CELL (SEP CELL)* SEP; border is '+' ('-'*w '+')*"),
                  ("R12f", "column widths stay within [min_width, max_width]"),
                  ("R12g", "record accounting under limits; every record once, in order"),
-                 ("R12h", "no in-place mutation of a list that may be shared")):
+                 ("R12h", "no in-place mutation of a list that may be shared"),
+                 ("R12i", "a truncated cell shows a prefix of its own value, then the dots")):
         cx.rule(r, t)
     cx.assume("the table has at least one column (n >= 1) and column widths are non-negative (R12f + min_width >= 0)")
     fit = cx.func(REL, "FieldType.fit_to_width", "R12c")
@@ -49,6 +53,7 @@ def run(cx):
     detect = cx.func(REL, "ReprStructure.detect_actual_columns_widths", "R12f")
 
     cx.guard(_r12d, cx, resize)
+    cx.guard(_r12i, cx, resize, fit)
     cx.guard(_r12c, cx, fit)
     cx.guard(_r12b, cx, repo, titles, records)
     cx.guard(_r12e, cx, mk_line)
@@ -493,3 +498,54 @@ def _r12g(cx, gen):
     st = [s for s in walk_local(gen) if isinstance(s, ast.Assign) and norm(s.targets[0]).endswith("any_lines_skipped")]
     ok = len(st) == 1 and norm(st[0].value) == "n_skipped > 0"
     cx.ob("R12g", st[0] if st else gen, ok, "the format records whether lines were skipped" if ok else "any_lines_skipped is not n_skipped > 0")
+
+
+def _r12i(cx, resize, fit):
+    """Content (not only width) of a truncated cell.  resize_chunks_list(chunks, m) is interpreted by the relational text
+    interpreter of C08 (sa/textint.py) with the chunk list as the text: for every m >= 0 and every list the result shows the
+    first min(m, n) characters of the value, in order and in their colours, then max(m - n, 0) blanks; fit_to_width appends the
+    dots chunk after it (and nothing between)."""
+    from sa.textint import TextInterp, State, Int, Opaque, Unsupported, N, K as K_, same_text, witness
+    from sa.fm import Lin as FLin, lin as flin, ge, gt, le, eq
+    ps = params(resize)
+    cx.need(len(ps) == 3, "R12i", resize, "parameters (cls, chunks, new_len)")
+    it = TextInterp({})
+    m = FLin.var("m")
+    outs = []
+    try:
+        for shape in ([eq(N, 0), eq(K_, 0)], [ge(N, 1), ge(K_, 1)]):
+            outs.extend(it.run(resize.body, State({ps[0]: Opaque("cls"), ps[1]: Opaque("self.chunks"), ps[2]: Int(m)}, [ge(m, 0)] + shape)))
+    except Unsupported as u:
+        raise AnalysisError("R12i", f"{RELC}::CHText.resize_chunks_list", f"not decided: {u}")
+    n_pairs = 0
+    for desc, cons, want in (("m <= n", [le(m, N)], [("cov", flin(0), m)]), ("m > n", [gt(m, N)], [("cov", flin(0), N), ("pad", m - N)])):
+        bad = None
+        for o in outs:
+            s = o.st.assume(*cons)
+            if not it.feasible(s):
+                continue
+            n_pairs += 1
+            line = getattr(o.node, "lineno", resize.lineno)
+            if o.how == "alarm":
+                bad = f"line {line}: {o.value}"
+            elif o.how != "return":
+                bad = f"line {line}: {o.how} {o.value or ''}"
+            else:
+                got = it._text_parts(o.value)
+                if got is None or not same_text(it, got, want, s):
+                    bad = f"line {line}: returns {o.value!r}"
+            if bad:
+                bad += f"; e.g. {witness(it, s, {'m', 'n', 'k'})}"
+                break
+        cx.ob("R12i", resize, bad is None, f"resize_chunks_list, {desc}: the first min(m, n) characters of the value, then blanks" if bad is None else f"resize_chunks_list, {desc}: {bad}", stmt=f"resize [{desc}]")
+    cx.at_least("R12i", "path x case pairs", n_pairs, 4)
+    cx.counts["R12i:linear-arithmetic queries"] = it.stats["fm_queries"]
+    # fit_to_width: result of resize, then the dots, nothing else
+    rs = [st for st, v in assignments(fit, "result") if v is not None and isinstance(v, ast.Call) and call_name(v) == "resize_chunks_list"]
+    cx.need(len(rs) == 1, "R12i", fit, "truncation branch of fit_to_width")
+    blk = parent(rs[0]).body if rs[0] in getattr(parent(rs[0]), "body", []) else None
+    cx.need(blk is not None, "R12i", fit, "truncation branch block")
+    tail = blk[blk.index(rs[0]) + 1:]
+    ok = len(tail) == 2 and norm(tail[0]).startswith("result.append(") and "'.' * dots_len" in norm(tail[0]).replace("*", " * ").replace("  ", " ") and norm(tail[1]) == "return result" \
+        and norm(rs[0].value.args[0]) == params(fit)[0] and norm(rs[0].value.args[1]) == "visible_text_len"
+    cx.ob("R12i", rs[0], ok, "truncated cell = resize(cell's own chunks, width - dots) followed by the dots chunk" if ok else "the truncation branch does not return resize(own chunks, visible length) + dots")
